@@ -106,7 +106,14 @@ def main():
         engines=[dict(name="hypothesis-shim", path="vlib/driver.py", serves_properties=sorted(CHECKS),
                       kind_free_text="Hypothesis 6.168 strategies -> JSON cases -> real Inovesa classes through a ctypes shim "
                                      "(libivshim.so, rebuilt from /repo's working tree) or the rebuilt inovesa executable; numpy float64 oracles; "
-                                     "sharded over 16 processes; shrunk failing case re-executed 3x and saved as replay file")],
+                                     "sharded over 16 processes; shrunk failing case re-executed 3x and saved as replay file"),
+                 dict(name="libfuzzer-targets", path="vlib/fuzzrun.py", serves_properties=["C01", "C02", "C13", "C15", "C17", "C18"],
+                      kind_free_text="libFuzzer (clang 14, -fsanitize=fuzzer,address,undefined) targets under fuzz/ with the semantic oracle inside the "
+                                     "target: fuzz_maps.cpp (C01 sum / C02 whole-cell shift / C15 in-grid / C17 memory), fuzz_config.cpp (C13 round trip of "
+                                     "configuration text), fuzz_field.cpp (C18 histories vs fresh object), fuzz_inputs.cpp (C17 text readers); run as "
+                                     "sub-checks of the same driver (16 campaigns each), a crash-/ORACLE-VIOLATION artifact becomes the replay input"),
+                 dict(name="api-under-sanitizers", path="vlib/apisan.py", serves_properties=["C17"],
+                      kind_free_text="generators of 26 API-level sub-checks re-run against an ASan+UBSan build of the shim (C17 apisan)")],
         checks=[], not_applicable=[],
         notes="All checks: ./check <ID> --tier quick|thorough; evidence in evidence/<ID>.json; known findings in known_findings.json.")
     for p in props:
